@@ -2,6 +2,7 @@ package eval
 
 import (
 	"grol.io/grol/object"
+	"grol.io/grol/simhook"
 )
 
 const MaxArgs = 4
@@ -23,6 +24,9 @@ func NewCache() Cache {
 }
 
 func (c Cache) Get(fn string, args []object.Object) (object.Object, []byte, bool) {
+	if simhook.NoCache() {
+		return nil, nil, false
+	}
 	if len(args) > MaxArgs {
 		return nil, nil, false
 	}
@@ -39,6 +43,9 @@ func (c Cache) Get(fn string, args []object.Object) (object.Object, []byte, bool
 }
 
 func (c Cache) Set(fn string, args []object.Object, result object.Object, output []byte) {
+	if simhook.NoCache() {
+		return
+	}
 	if len(args) > MaxArgs {
 		return
 	}
